@@ -444,6 +444,80 @@ def compProjAdjI (m i : Nat) (x : Nat) (y : Nat → Nat) (s : St K) : St K :=
 
 end
 
+/-! ### Round 4: further `default_ops.py` bodies, statement for statement
+
+Executed by the `leaf` / `lincomb` ops of `Drivers/C03.lean`, compared with the real classes by the
+`leaf` stream of `tools/harness/c03.py`. -/
+
+section
+variable {K : Type} [Add K] [Mul K] [OfNat K 0]
+
+/-- `ZeroOperator._call` with `domain != range` (the `else` branch):
+`result = self.range.zero()`; `out = result` | `out.assign(result)`; `return out`.
+The input is not read at all. -/
+def zeroDiffLeaf : Leaf K :=
+  { sig := .dual, fn := false, raw := false, phi := fun _ _ => 0,
+    oop := fun _ s => alloc s (fun _ => 0),
+    ip := fun _ y s =>
+      let (r, s1) := alloc s (fun _ => 0)
+      (.out, s1.write y (s1.mem r)) }
+
+/-- Value computed by `_lincomb_impl(a, x1, b, x2, out)` of `odl/space/npy_tensors.py` on its
+branch for `size < THRESHOLD_SMALL` (the only one the `leaf` stream reaches):
+`if a == 0 and b == 0: out.data[:] = 0` else `out.data[:] = a * x1.data + b * x2.data`
+(the right-hand side is evaluated completely before the assignment). `isz` is `· == 0`. -/
+def lincombSmall (isz : K → Bool) (a : K) (x1 : Vec K) (b : K) (x2 : Vec K) : Vec K :=
+  if isz a && isz b then fun _ => 0 else fun i => a * x1 i + b * x2 i
+
+/-- `MultiplyOperator._call` with a SCALAR multiplicand on a space (`MultiplyOperator(c,
+domain=X, range=X)`): `return x * c` (`LinearSpaceElement.__mul__` with `c in field`:
+`tmp = space.element(); lincomb(c, x, out=tmp)`, i.e. `_lincomb(c, x, 0, x, tmp)`) |
+`out.assign(c * x)` (the product is a new object, then copied). -/
+def multScalarLeaf (isz : K → Bool) (jk : Nat → Vec K) (c : K) : Leaf K :=
+  { sig := .dual, fn := false, raw := false, phi := fun x => lincombSmall isz c x 0 x,
+    oop := fun x s =>
+      let (t, s1) := alloc s (jk s.next)
+      (t, s1.write t (lincombSmall isz c (s1.mem x) 0 (s1.mem x))),
+    ip := fun x y s =>
+      let (t, s1) := alloc s (jk s.next)
+      let s2 := s1.write t (lincombSmall isz c (s1.mem x) 0 (s1.mem x))
+      (.none, s2.write y (s2.mem t)) }
+
+/-- `ImagPart._call` on a real space: `return x.imag`, and `x.imag` of a real tensor is
+`self.space.zero()` — a new object; out-of-place only (in-place goes through
+`_default_call_in_place`). -/
+def imagLeaf : Leaf K :=
+  { sig := .oop, fn := false, raw := false, phi := fun _ _ => 0,
+    oop := fun _ s => alloc s (fun _ => 0),
+    ip := fun _ _ s => (.other, s) }
+
+/-- `ComplexModulus._call` on a real space, with every temporary:
+`return (x.real ** 2 + x.imag ** 2).ufuncs.sqrt()`; `x.real is x`, `x.imag` is a new zero
+element, `**`, `+` and `sqrt` each return a new object. Out-of-place only. -/
+def cmodLeaf (sq : K → K) : Leaf K :=
+  { sig := .oop, fn := false, raw := false, phi := fun x i => sq (x i * x i + 0 * 0),
+    oop := fun x s =>
+      let (t1, s1) := alloc s (fun i => s.mem x i * s.mem x i)        -- x.real ** 2
+      let (t2, s2) := alloc s1 (fun _ => 0)                           -- x.imag
+      let (t3, s3) := alloc s2 (fun i => s2.mem t2 i * s2.mem t2 i)   -- x.imag ** 2
+      let (t4, s4) := alloc s3 (fun i => s3.mem t1 i + s3.mem t3 i)   -- … + …
+      alloc s4 (fun i => sq (s4.mem t4 i)),                           -- .ufuncs.sqrt()
+    ip := fun _ _ s => (.other, s) }
+
+/-- `LinCombOperator._call(x)` on `X × X` (`x` = tuple of component objects):
+`out = self.range.element(); out.lincomb(a, x[0], b, x[1]); return out`. -/
+def linCombO (isz : K → Bool) (jk : Nat → Vec K) (a b : K) (x : Nat → Nat) (s : St K) :
+    Nat × St K :=
+  let (o, s1) := alloc s (jk s.next)
+  (o, s1.write o (lincombSmall isz a (s1.mem (x 0)) b (s1.mem (x 1))))
+
+/-- `LinCombOperator._call(x, out)`: `out.lincomb(a, x[0], b, x[1]); return out` (`lincomb`
+reads both operands before it writes, also when `out` is one of them: C01). -/
+def linCombI (isz : K → Bool) (a b : K) (x : Nat → Nat) (y : Nat) (s : St K) : St K :=
+  s.write y (lincombSmall isz a (s.mem (x 0)) b (s.mem (x 1)))
+
+end
+
 /-! ### Leaves built from the straight-line programs of `ProxProg` -/
 
 /-- Local view of the store for a program body: buffer 0 is `x`, buffer 1 is `out` (when
